@@ -137,3 +137,98 @@ pub fn decode_cert(der: &[u8]) -> Result<(x509::Cert, Vec<String>), String> {
 	let c = x509::parse_cert(der, &l).map_err(|e| format!("independent decoder rejects the certificate: {e}"))?;
 	Ok((c, l.take()))
 }
+
+// ---------------------------------------------------------------------------------------------
+// CSR and CRL cases
+
+#[derive(Clone, Debug, Serialize, Deserialize, PartialEq, Eq, Hash)]
+pub struct CsrCase {
+	pub spec: CertSpec,
+	pub key: KeySpec,
+	pub attrs: Vec<AttrSpec>,
+}
+
+pub fn csr_case(cheap_keys: bool) -> BoxedStrategy<CsrCase> {
+	let key = if cheap_keys { gen::cheap_key().boxed() } else { gen::key_spec().boxed() };
+	(gen::csr_spec(false, false, true), key, proptest::collection::vec(gen::attr_spec(), 0..5))
+		.prop_map(|(spec, key, attrs)| CsrCase { spec, key, attrs })
+		.boxed()
+}
+
+pub fn build_csr(case: &CsrCase) -> Result<(rcgen::CertificateSigningRequest, rcgen::KeyPair), String> {
+	let params = mk::cert_params(&case.spec)?;
+	let key = keys::make_key(&case.key)?;
+	let attrs: Vec<rcgen::Attribute> = case.attrs.iter().map(mk::attribute).collect();
+	let csr = if attrs.is_empty() {
+		params.serialize_request(&key)
+	} else {
+		params.serialize_request_with_attributes(&key, attrs)
+	}
+	.map_err(|e| format!("serialize_request failed: {e}"))?;
+	Ok((csr, key))
+}
+
+pub fn csr_attr_pairs(case: &CsrCase) -> Vec<(Vec<u64>, Vec<u8>)> {
+	case.attrs
+		.iter()
+		.map(|a| (mk::ATTR_OIDS[a.oid_idx as usize % mk::ATTR_OIDS.len()].to_vec(), a.values.0.clone()))
+		.collect()
+}
+
+pub fn decode_csr(der: &[u8]) -> Result<(x509::Csr, Vec<String>), String> {
+	let l = Lints::new();
+	let c = x509::parse_csr(der, &l).map_err(|e| format!("independent decoder rejects the CSR: {e}"))?;
+	Ok((c, l.take()))
+}
+
+#[derive(Clone, Debug, Serialize, Deserialize, PartialEq, Eq, Hash)]
+pub struct CrlCase {
+	pub crl: CrlSpec,
+	pub issuer: IssuerCase,
+}
+
+/// CRL cases rcgen must accept: issuer key usages empty or including cRLSign.
+pub fn crl_case(plain_times: bool, cheap_keys: bool) -> BoxedStrategy<CrlCase> {
+	(gen::crl_spec(plain_times), issuer_case(false, true, cheap_keys))
+		.prop_map(|(crl, mut issuer)| {
+			if !issuer.spec.key_usages.is_empty() && !issuer.spec.key_usages.contains(&6) {
+				issuer.spec.key_usages.push(6);
+			}
+			CrlCase { crl, issuer }
+		})
+		.boxed()
+}
+
+pub struct BuiltCrl {
+	pub crl: rcgen::CertificateRevocationList,
+	pub issuer_cert: rcgen::Certificate,
+	pub issuer_key: rcgen::KeyPair,
+}
+
+pub fn build_crl(case: &CrlCase) -> Result<Result<BuiltCrl, rcgen::Error>, String> {
+	let issuer_key = keys::make_key(&case.issuer.key)?;
+	let issuer_cert = mk::cert_params(&case.issuer.spec)?
+		.self_signed(&issuer_key)
+		.map_err(|e| format!("issuer self_signed failed: {e}"))?;
+	let params = mk::crl_params(&case.crl)?;
+	Ok(match params.signed_by(&issuer_cert, &issuer_key) {
+		Ok(crl) => Ok(BuiltCrl { crl, issuer_cert, issuer_key }),
+		Err(e) => Err(e),
+	})
+}
+
+pub fn decode_crl(der: &[u8]) -> Result<(x509::Crl, Vec<String>), String> {
+	let l = Lints::new();
+	let c = x509::parse_crl(der, &l).map_err(|e| format!("independent decoder rejects the CRL: {e}"))?;
+	Ok((c, l.take()))
+}
+
+/// Signature check shared by C01 and others: `sig` over exactly `signed` under `signer`'s
+/// public key (OpenSSL's own SPKI encoding of the fixture key), digest per the signer's algorithm.
+pub fn verify_sig(signer: &KeySpec, signed: &[u8], sig: &[u8]) -> Result<(), String> {
+	let fx = keys::fixture(signer);
+	match keys::openssl_verify(&fx.spki, keys::digest_of(signer), signed, sig)? {
+		true => Ok(()),
+		false => Err(format!("OpenSSL rejects the signature under the signer's public key ({})", signer.label())),
+	}
+}
